@@ -646,6 +646,50 @@ func c13(c *Ctx) {
 			}
 		})
 		r.Check("tagname:no-match-no-tag", okNil, tn.Pos(), "keys the regex does not match yield no tag")
+		// configuration wiring: the label regex comes from label-tag-regex, the annotation regex from
+		// annotation-tag-regex (field <- constructor parameter <- argument at every call site <- GetString(key))
+		for _, fn := range pkgFuncs(w, P) {
+			for _, st := range storesIn(fn) {
+				t, f, _, ok := fieldRef(st.Addr)
+				if !ok || t != "Provider" || (f != "labelRegex" && f != "annotationRegex") {
+					continue
+				}
+				want, other := "label-tag-regex", "annotation-tag-regex"
+				if f == "annotationRegex" {
+					want, other = other, want
+				}
+				p, isParam := stripConvVal(st.Val).(*ssa.Parameter)
+				if !isParam {
+					ks := stringConstsFlowingInto(fn, st.Val)
+					r.Check("regex-wiring:"+f, ks[want] && !ks[other], st.Pos(), fmt.Sprintf("%s is built from the %s setting (settings reaching it: %v)", f, want, keysOf(ks)))
+					continue
+				}
+				idx := -1
+				for i, q := range fn.Params {
+					if q == p {
+						idx = i
+					}
+				}
+				nSites := 0
+				for _, caller := range w.ModuleFuncs() {
+					if strings.Contains(fnPkgPath(caller), "/internal/fixtures") {
+						continue
+					}
+					for _, cl := range callsIn(caller) {
+						if staticCallee(cl) != fn || idx < 0 || idx >= len(cl.Common().Args) {
+							continue
+						}
+						ks := stringConstsFlowingInto(caller, cl.Common().Args[idx])
+						if len(ks) == 0 {
+							continue // a caller that passes a ready-made regex (tests, embedding code)
+						}
+						nSites++
+						r.Check("regex-wiring:"+f+":"+caller.Name(), ks[want] && !ks[other], cl.Pos(), fmt.Sprintf("the argument stored as %s derives from the %s setting (settings reaching it: %v)", f, want, keysOf(ks)))
+					}
+				}
+				r.Check("regex-wiring:"+f+":configured-somewhere", nSites >= 1, st.Pos(), fmt.Sprintf("%d call sites build %s from configuration", nSites, f))
+			}
+		}
 		// instanceFromInformer
 		c.SawFunc(FuncName(ifi))
 		for _, cl := range callsIn(ifi) {
@@ -689,7 +733,54 @@ func c13(c *Ctx) {
 				okID = strings.Contains(es, ".Namespace+\"/\")+") && strings.HasSuffix(strings.TrimSuffix(es, ")"), ".Name")
 			}
 			if v, ok := al["Tags"]; ok {
-				r.Check("instance:tags", strings.Contains(pathOf(v), "tags") || strings.Contains(pathOf(v), "phi"), ifi.Pos(), "Instance.Tags <- "+pathOf(v))
+				// the tags are accumulated: walking back from Instance.Tags through phis, re-slices and appends, the
+				// only other origin is nil, and nil may only arrive over an edge that no tag-appending step reaches
+				// (the initial value) - a nil arriving later throws the tags collected so far away
+				var appendBlocks []*ssa.BasicBlock
+				eachInstr(ifi, func(in ssa.Instruction) {
+					if cl, ok := in.(*ssa.Call); ok && isCall(cl, "builtin append") && strings.Contains(cl.Type().String(), "Tags") {
+						appendBlocks = append(appendBlocks, cl.Block())
+					}
+				})
+				okAcc, whyAcc := true, ""
+				seen := map[ssa.Value]bool{}
+				var walk func(x ssa.Value, from *ssa.BasicBlock, d int)
+				walk = func(x ssa.Value, from *ssa.BasicBlock, d int) {
+					if x == nil || seen[x] || d > 30 {
+						return
+					}
+					seen[x] = true
+					switch y := x.(type) {
+					case *ssa.Phi:
+						for i, e := range y.Edges {
+							walk(e, y.Block().Preds[i], d+1)
+						}
+					case *ssa.Call:
+						if isCall(y, "builtin append") {
+							walk(y.Call.Args[0], y.Block(), d+1)
+							return
+						}
+						okAcc, whyAcc = false, "tags come from "+shortCallee(y)
+					case *ssa.ChangeType:
+						walk(y.X, from, d+1)
+					case *ssa.Slice:
+						walk(y.X, from, d+1)
+					case *ssa.Const:
+						if !isNilConst(y) {
+							okAcc, whyAcc = false, "constant tags"
+							return
+						}
+						for _, ab := range appendBlocks {
+							if from != nil && (ab == from || reachableFrom(ab)[from]) {
+								okAcc, whyAcc = false, fmt.Sprintf("nil replaces the tags collected so far (arrives from block %d, after tags were appended)", from.Index)
+							}
+						}
+					default:
+						okAcc, whyAcc = false, "tags come from "+pathOf(x)
+					}
+				}
+				walk(v, nil, 0)
+				r.Check("instance:tags", okAcc && len(appendBlocks) >= 1, ifi.Pos(), "Instance.Tags is everything that was appended: "+whyAcc)
 			}
 		}
 		r.Check("instance:id-is-namespace/name", okID, ifi.Pos(), "ID = pod.Namespace + \"/\" + pod.Name")
@@ -776,4 +867,53 @@ func isElemOf(v ssa.Value, call *ssa.Call) bool {
 		return x.X == ssa.Value(call)
 	}
 	return false
+}
+
+
+// stringConstsFlowingInto: the string constants ending in "-tag-regex" (configuration keys) among the values v
+// is computed from (backward slice through operands, phis, tuples and local memory cells).
+func stringConstsFlowingInto(fn *ssa.Function, v ssa.Value) map[string]bool {
+	out := map[string]bool{}
+	seen := map[ssa.Value]bool{}
+	var walk func(v ssa.Value, d int)
+	walk = func(v ssa.Value, d int) {
+		if v == nil || seen[v] || d > 40 {
+			return
+		}
+		seen[v] = true
+		if sv, ok := constString(v); ok {
+			if strings.HasSuffix(sv, "-tag-regex") {
+				out[sv] = true
+			}
+			return
+		}
+		if u, ok := v.(*ssa.UnOp); ok && u.Op == token.MUL {
+			if cell := cellOf(u.X); cell != nil {
+				for _, ref := range referrers(cell) {
+					if st, ok := ref.(*ssa.Store); ok && st.Addr == ssa.Value(cell) {
+						walk(st.Val, d+1)
+					}
+				}
+				return
+			}
+		}
+		if in, ok := v.(ssa.Instruction); ok {
+			for _, op := range in.Operands(nil) {
+				if *op != nil {
+					walk(*op, d+1)
+				}
+			}
+		}
+	}
+	walk(v, 0)
+	return out
+}
+
+func keysOf(m map[string]bool) []string {
+	var out []string
+	for k := range m {
+		out = append(out, k)
+	}
+	sort.Strings(out)
+	return out
 }
